@@ -181,8 +181,20 @@ def chain_clause(model, rep, funcs):
             good = isinstance(a0, ast.Call) and isinstance(a0.func, ast.Attribute) and a0.func.attr == "pre_transform" and a0.args and \
                 isinstance(a0.args[0], ast.BinOp) and isinstance(a0.args[0].op, ast.Mult)
             if good:
-                # operands by what they are bound to (parameters, the model's own mask, the mask paired with the template), not by their names
-                x = Matcher(f).expr(a0.args[0])
+                # operands by what they are bound to (parameters, the model's own mask, the mask paired with the template), not by their names;
+                # the expression is taken from the expanded statement so that comprehension variables are resolved in their own scope
+                x = None
+                for st_, xs_ in Matcher(f)._nodes(True):  # pre-order: the innermost statement that contains the call comes last
+                    if isinstance(st_, (ast.For, ast.While, ast.If, ast.With, ast.Try)):
+                        continue
+                    if any(sub is c for sub in ast.walk(st_)):
+                        for sub in ast.walk(xs_):
+                            if isinstance(sub, ast.Call) and isinstance(sub.func, ast.Attribute) and sub.func.attr == callee_attr and sub.args and \
+                                    isinstance(sub.args[0], ast.Call) and sub.args[0].args and isinstance(sub.args[0].args[0], ast.BinOp):
+                                x = sub.args[0].args[0]
+                                break
+                if x is None:
+                    x = Matcher(f).expr(a0.args[0])
                 lnames = {n.id for n in ast.walk(x.left) if isinstance(n, ast.Name)}
                 rtxt = ast.unparse(x.right)
                 params = set(f.param_names())
